@@ -6,6 +6,7 @@ import (
 	"errors"
 	"fmt"
 	"os"
+	"path/filepath"
 	"sort"
 	"strings"
 	"sync"
@@ -136,18 +137,71 @@ func VerifMerge(root string, ids []uint64) (uint64, error) {
 	return np.ID(), nil
 }
 
-// VerifTakeFileSnapshot calls TakeFileSnapshot of a live table.
+var verifSnapSeq atomic.Int64
+
+// VerifTakeFileSnapshot calls TakeFileSnapshot of a live table, then inspects the copy (part directories present,
+// parts listed by its manifest) and opens it with the real recovery code (initTSTable).  The call is bracketed by
+// FileSnapBegin / FileSnapEnd events in the lifecycle trace.
 func VerifTakeFileSnapshot(root, dst string) error {
 	v, ok := verifTables.Load(root)
 	if !ok {
 		return fmt.Errorf("no table %s", root)
 	}
+	tst := v.(*verifLoop).tst
 	if err := os.MkdirAll(dst, 0o755); err != nil {
 		return err
 	}
-	_, err := v.(*verifLoop).tst.TakeFileSnapshot(dst)
+	id := int(verifSnapSeq.Add(1))
+	verifFileSnap("FileSnapBegin", tst, id, false, nil, nil, nil)
+	wrote, err := tst.TakeFileSnapshot(dst)
 	if err != nil && errors.Is(err, storage.ErrNoCurrentSnapshot) {
-		return nil
+		err = nil
 	}
-	return err
+	if err != nil {
+		return err
+	}
+	var copied, listed, opened []uint64
+	if wrote {
+		ents, _ := os.ReadDir(dst)
+		for _, e := range ents {
+			if e.IsDir() {
+				if pid, perr := parseEpoch(e.Name()); perr == nil {
+					copied = append(copied, pid)
+				}
+				continue
+			}
+			if epoch, perr := parseSnapshot(e.Name()); perr == nil {
+				names, rerr := storage.ReadSnapshotPartNames(tst.fileSystem, filepath.Join(dst, snapshotName(epoch)))
+				if rerr != nil {
+					return fmt.Errorf("VIOLATION manifest of the copy is unreadable: %w", rerr)
+				}
+				for _, n := range names {
+					pid, _ := parseEpoch(n)
+					listed = append(listed, pid)
+				}
+			}
+		}
+		// the copy must open with the real start-up code
+		var openErr error
+		func() {
+			defer func() {
+				if r := recover(); r != nil {
+					openErr = fmt.Errorf("VIOLATION opening the copy panicked: %v", r)
+				}
+			}()
+			t2, _ := initTSTable(tst.fileSystem, dst, tst.p, tst.l, tst.option, nil)
+			if t2.snapshot != nil {
+				for _, pw := range t2.snapshot.parts {
+					opened = append(opened, pw.ID())
+				}
+				t2.snapshot.decRef()
+				t2.snapshot = nil
+			}
+		}()
+		if openErr != nil {
+			return openErr
+		}
+	}
+	verifFileSnap("FileSnapEnd", tst, id, wrote, copied, listed, opened)
+	return nil
 }
